@@ -415,10 +415,10 @@ INTERESTING = {'action', '_fill', 'elect', 'defeat', 'unpend', 'copy', 'postChec
                'logAction', 'log', 'newRound', 'count', 'record', 'info'}
 
 PARAMS = {
-    'quick': dict(exh_cap=4000, sample=500, op_cases=0.2, op_stride=5, op_random=80, main_cases=0.25, main_k=36,
-                  sigint=0.01, window_orders=2, crosscheck=3, cprofile=0.08),
+    'quick': dict(exh_cap=2000, sample=300, op_cases=0.15, op_stride=5, op_random=60, main_cases=0.25, main_k=36,
+                  sigint=0.01, window_orders=2, crosscheck=3, cprofile=0.08, op_max=700),
     'thorough': dict(exh_cap=20000, sample=2500, op_cases=0.6, op_stride=1, op_random=400, main_cases=0.4, main_k=120,
-                     sigint=0.02, window_orders=3, crosscheck=6, cprofile=0.1),
+                     sigint=0.02, window_orders=3, crosscheck=6, cprofile=0.1, op_max=8000),
 }
 
 
@@ -471,6 +471,11 @@ def opcode_schedule(ref_op, P, rnd):
     for i, s in enumerate(sites):
         if s & Tracer.SPAN_BIT and (i + off) % stride == 0:
             ks.add(i + 1)
+    if len(ks) > P['op_max']:
+        # a large election: keep the earliest in-span instants (header fill, first actions) and a seeded sample
+        ordered = sorted(ks)
+        head = ordered[:P['op_max'] // 3]
+        ks = set(head) | set(rnd.sample(ordered[len(head):], P['op_max'] - len(head)))
     for _ in range(P['op_random']):
         ks.add(rnd.randint(1, T))
     return sorted(ks)
